@@ -95,6 +95,13 @@ package types
 //@ func update(ctx, clientStore, clientState, header) (newCS, newCons)
 //@   props C07
 //@   modifies tibc
+//@   alias newCS = clientState
+//@   mutates clientState
+//@   let chainId0 = clientState.ChainId
+//@   let tp0 = clientState.TrustingPeriod
+//@   let drift0 = clientState.MaxClockDrift
+//@   let tl0 = clientState.TrustLevel
+//@   let td0 = clientState.TimeDelay
 //@   let c    = clientOf(clientStore)
 //@   let hrev = revof(header.SignedHeader.Header.ChainID)
 //@   let hh   = header.SignedHeader.Header.Height
@@ -104,8 +111,8 @@ package types
 //@   ensures latest.never_decreases: !(newCS.LatestHeight.RevisionNumber <u old.RevisionNumber || (newCS.LatestHeight.RevisionNumber == old.RevisionNumber && newCS.LatestHeight.RevisionHeight <u old.RevisionHeight))
 //@   ensures cons.fields: newCons.Timestamp == header.SignedHeader.Header.Time && newCons.Root.Hash == header.SignedHeader.Header.AppHash &&
 //@                        newCons.NextValidatorsHash == header.SignedHeader.Header.NextValidatorsHash
-//@   ensures other.fields: newCS.ChainId == clientState.ChainId && newCS.TrustingPeriod == clientState.TrustingPeriod && newCS.MaxClockDrift == clientState.MaxClockDrift &&
-//@                        newCS.TrustLevel == clientState.TrustLevel && newCS.TimeDelay == clientState.TimeDelay
+//@   ensures other.fields: newCS.ChainId == chainId0 && newCS.TrustingPeriod == tp0 && newCS.MaxClockDrift == drift0 &&
+//@                        newCS.TrustLevel == tl0 && newCS.TimeDelay == td0
 //@   ensures metadata:    tibc == old(tibc)[tmProcessedTime(c, hrev, hh) := enc64(unixnano(now()))][tmIterKey(c, hrev, hh) := subrepr(consState, hrev, hh)]
 //@
 //@ // checkValidity: accepted only if the supplied trusted validators hash to what the trusted state committed to, the header is
@@ -150,6 +157,11 @@ package types
 //@                              v.header.TrustedHeight == th && v.header.SignedHeader.Header.ChainID == h.SignedHeader.Header.ChainID && v.header.SignedHeader.Header.Height == h.SignedHeader.Header.Height &&
 //@                              v.currentTimestamp == now())
 //@   ensures updated:        err == nil ==> ncalls(update) == 1 && (forall u in calls(update) :: newCS == u.newCS && newCons == u.newCons &&
-//@                              u.clientState.LatestHeight == self.LatestHeight && u.header.SignedHeader.Header.Height == h.SignedHeader.Header.Height)
+//@                              u.header.SignedHeader.Header.Height == h.SignedHeader.Header.Height)
+//@   let hrev  = revof(h.SignedHeader.Header.ChainID)
+//@   let hh    = h.SignedHeader.Header.Height
+//@   let newer = self.LatestHeight.RevisionNumber <u hrev || (self.LatestHeight.RevisionNumber == hrev && self.LatestHeight.RevisionHeight <u hh)
+//@   ensures latest.max:     err == nil ==> newCS.LatestHeight.RevisionNumber == ite(newer, hrev, self.LatestHeight.RevisionNumber) && newCS.LatestHeight.RevisionHeight == ite(newer, hh, self.LatestHeight.RevisionHeight)
+//@   ensures params.kept:    err == nil ==> newCS.ChainId == self.ChainId && newCS.TrustingPeriod == self.TrustingPeriod && newCS.MaxClockDrift == self.MaxClockDrift && newCS.TrustLevel == self.TrustLevel && newCS.TimeDelay == self.TimeDelay
 //@   ensures reject.untouched: err != nil ==> tibc == old(tibc)
 //@   ensures frame:          forall k: key :: !inClient(k, c) ==> tibc[k] == old(tibc)[k]
